@@ -7,7 +7,7 @@ import json, os, posixpath, re, shutil
 from collections import Counter
 
 HARNESSES = [
-    ("crypto/storage/fs", ["crypto/storage/fs/zz_verif_c03_test.go"], "c03fs"),
+    ("crypto/storage/fs", ["crypto/storage/fs/zz_verif_c03_test.go", "crypto/storage/fs/zz_verif_c03pem_test.go"], "c03fs"),
     ("crypto/storage/vault", ["crypto/storage/vault/zz_verif_c03_test.go"], "c03vault"),
     ("crypto", ["crypto/zz_verif_c03_test.go", "crypto/zz_verif_c03cfg_test.go"], "c03ks"),
     ("crypto/storage/external", ["crypto/storage/external/zz_verif_c03_test.go"], "c03ext"),
@@ -44,6 +44,7 @@ REQUIRED = [
     "fact_export_loop_shape", "fact_export_error_wording", "fact_fs2vault_target_wrapped", "wrappedSave_gated", "wrappedPut_gated",
     "export_lists_only_listed_names", "export_target_entries_valid_and_faithful", "export_output_independent_of_key_material",
     "fs2vault_new_entries_confined",
+    "fact_pem_switch_tables", "pem_signer_only_from_private_block", "pem_public_decoder_refuses_private_blocks", "pem_other_block_is_nil_without_error",
     "fact_external_name_to_path", "external_target_confined", "external_valid_name_not_dot_segment", "fs_list_roundtrip", "fs_listed_name_shape", "fs_list_separator_not_checked",
 ]
 
@@ -206,6 +207,26 @@ def run(ctx):
                         names_rej += 1
             elif k == "kidmap":
                 distinct.add(("kidmap", op["prefix"]))
+            elif k == "pemclass":
+                distinct.add(("pem", op.get("der"), op.get("block")))
+                # direct oracle on the codec's own answers: a (non-nil) signer comes only out of a private-key block and has a
+                # key-store signer type; the public decoder never hands out a private key type nor accepts a private block
+                mp = re.fullmatch(r"pemclass priv=(\S+) pub=(\S+)", line)
+                PRIV_BLOCKS = ("PRIVATE KEY", "EC PRIVATE KEY", "RSA PRIVATE KEY")
+                whyp = None
+                if not mp:
+                    whyp = "garbage"
+                else:
+                    pv, pb = mp.group(1), mp.group(2)
+                    if pv.startswith("key:") and (op.get("block") not in PRIV_BLOCKS or pv[4:] not in ("*rsa.PrivateKey", "*ecdsa.PrivateKey", "ed25519.PrivateKey")):
+                        whyp = "signer-from-a-non-private-block-or-of-a-non-signer-type"
+                    elif pb.startswith("key:") and ("Private" in pb or op.get("block") in PRIV_BLOCKS):
+                        whyp = "public-decoder-returned-a-private-key"
+                    elif op.get("block") in PRIV_BLOCKS and op.get("privParsed", "").startswith("ok:") and op["privParsed"][3:] in ("*rsa.PrivateKey", "*ecdsa.PrivateKey", "ed25519.PrivateKey") \
+                            and op.get("der") != "nopem" and pv != "key:" + op["privParsed"][3:]:
+                        whyp = "stored-key-not-decoded-back"
+                if whyp:
+                    found_violation |= ctx.violation("C03:fs:pem-" + whyp, f"DER {op.get('der')} in block {op.get('block')!r}: {line[:160]}", "fs-pem.jsonl", ops[i])
             elif k == "listnames":
                 distinct.add(("ls", tuple(op.get("files") or [])))
                 # direct oracle: every key file <name>_private.pem of the tree is listed under <name>; every listed name is a
